@@ -76,6 +76,15 @@ pub struct WMCore {
 }
 
 impl WMCore {
+    /// Verification hook: assembles a core from ready-made level bitvectors (as `load` does after reading them).
+    #[cfg(simple_sds_verif)]
+    #[doc(hidden)]
+    pub fn verif_from_levels(levels: Vec<BitVector>) -> WMCore {
+        let mut result = WMCore { levels, };
+        result.init_support();
+        result
+    }
+
     /// Returns the length of each level in the structure.
     pub fn len(&self) -> usize {
         self.levels[0].len()
